@@ -81,7 +81,7 @@ Section Lex.
   Definition flush (st : lstate) : list tok :=
     match st with
     | LNone => []
-    | LName acc => [TName (rev acc)]
+    | LName acc => [TName (rev' acc)]      (* rev' = rev (List.rev_alt), linear: a name may be 10^5 characters long *)
     | LInt v => [TPosInt v]
     end.
 
